@@ -64,6 +64,7 @@ package ctxio
 //@   ghostset at selrecv#2 : helper = 2
 //@   ghostset at call(SetWriteDeadline)#3 : gDlFail = (res0 != nil)
 //@   ghostset at call(Err)#1 : gCtxErr = res0
+//@   assert [buffered C16 C17] at makechan#1 : size == 1
 //@   join at recv#1 : go#1
 //@   join at selrecv#2 : go#1 ; recv.n == gSentN && recv.err == gSentErr
 //@   assert [arm C17] at go#1 : dlWctx[c.conn]
@@ -99,6 +100,7 @@ package ctxio
 //@   ghostset at selrecv#2 : helper = 2
 //@   ghostset at call(SetReadDeadline)#3 : gDlFail = (res0 != nil)
 //@   ghostset at call(Err)#1 : gCtxErr = res0
+//@   assert [buffered C16 C17] at makechan#1 : size == 1
 //@   join at recv#1 : go#1
 //@   join at selrecv#2 : go#1 ; recv.n == gSentN && recv.err == gSentErr
 //@   assert [arm C17] at go#1 : dlRctx[c.conn]
@@ -137,6 +139,7 @@ package ctxio
 //@   ghostset at selrecv#2 : helper = 2
 //@   ghostset at call(SetReadDeadline)#3 : gDlFail = (res0 != nil)
 //@   ghostset at call(Err)#1 : gCtxErr = res0
+//@   assert [buffered C16 C17] at makechan#1 : size == 1
 //@   join at recv#1 : go#1
 //@   join at selrecv#2 : go#1 ; recv.val == gSentVal && recv.err == gSentErr
 //@   assert [arm C17] at go#1 : dlRctx[c.conn]
